@@ -181,7 +181,7 @@ def olareg_binary(o):
     key = ("olareg-bin",)
     if key not in Built.cache:
         os.makedirs(os.path.join(MYWORK, "bin"), exist_ok=True)
-        out = os.path.join(MYWORK, "bin", "olareg")
+        out = core._own(os.path.join(MYWORK, "bin", "olareg_%d" % os.getpid()))
         with core.Lock("gobuild"):
             if os.path.exists(out):
                 os.remove(out)
